@@ -111,8 +111,12 @@ struct Monitor {
     uint64_t (*ncases)(Ctx&);
     void (*run_case)(Ctx&, uint64_t index);
     void (*finish)(Ctx&);           // may be null: end-of-run checks / counters
+    void (*fuzz_one)(Ctx&, const unsigned char* data, size_t n);   // may be null: the monitor's oracle on a fuzzer-provided input (fuzz build)
 };
 void register_monitor(const Monitor& m);
+const std::vector<Monitor>& all_monitors();
+// fuzz helpers: split fuzzer bytes into two texts at the first newline
+static inline void fuzz_split2(const unsigned char* d, size_t n, Str* a, Str* b) { size_t i = 0; while (i < n && d[i] != '\n') i++; a->assign((const char*)d, i); if (i < n) b->assign((const char*)d + i + 1, n - i - 1); else b->clear(); }
 Ctx* current_ctx();                 // the worker's context (for attribution from helpers that have no Ctx at hand)
 // While alive, a crash / sanitizer abort is attributed to `prop` instead of the monitor's current property.
 struct AttrScope {
